@@ -1003,7 +1003,9 @@ func (s *v4Server) handleRequest(req, resp *dhcpv4.DHCPv4) (lease *dhcpsvc.Lease
 
 // handleDecline is the handler for the DHCP Decline request.
 func (s *v4Server) handleDecline(req, resp *dhcpv4.DHCPv4) (err error) {
-	s.conf.notify(LeaseChangedDBStore)
+	// Store the database after the leases have been changed and the lock has
+	// been released.
+	defer s.conf.notify(LeaseChangedDBStore)
 
 	s.leasesLock.Lock()
 	defer s.leasesLock.Unlock()
@@ -1038,12 +1040,17 @@ func (s *v4Server) handleDecline(req, resp *dhcpv4.DHCPv4) (err error) {
 		return nil
 	}
 
+	// The new lease has already been added to the leases by allocateLease, so
+	// don't add it again and only update its hostname, expiration time, and
+	// the hostname index.
+	if prev := newLease.Hostname; prev != "" && prev != oldLease.Hostname {
+		delete(s.hostsIndex, prev)
+	}
+
 	newLease.Hostname = oldLease.Hostname
 	newLease.Expiry = time.Now().Add(s.conf.leaseTime)
-
-	err = s.addLease(newLease)
-	if err != nil {
-		return fmt.Errorf("adding new lease for %s: %w", mac, err)
+	if newLease.Hostname != "" {
+		s.hostsIndex[newLease.Hostname] = newLease
 	}
 
 	log.Info("dhcpv4: changed IP from %s to %s for %s", reqIP, newLease.IP, mac)
